@@ -720,6 +720,8 @@ void gv::generate(const std::string& tier, uint64_t seed) {
       if (nmx == -1 && mmx != -1 && mmx != 0) continue;
       run("coeff", {std::to_string(N), std::to_string(nmx), std::to_string(mmx), std::to_string(Ms)}); stratum("coeff-exhaustive");
     }
+    // repair 3a5948e: an empty set still needs a layout degree N >= -1
+    for (int N : {-2, -5, -2147483647}) { run("coeff", {std::to_string(N), "-1", "-1", "-1"}); stratum("coeff-negative-layout"); }
     // regression of the overflow fix: huge / inconsistent degrees in a coefficient file
     for (int kind = 0; kind < 2; ++kind)
       for (auto nm : std::vector<std::pair<long, long>>{{2147483647L, 2147483647L}, {46342, 46342}, {46341, 0}, {65536, 65536}, {1000000, 3}, {-1, 0}, {3, 5}, {-2, -2}, {2147483647L, 0}, {46339, 0}, {46340, 1}, {12, 12}, {9, 9}, {-2147483647L - 1, 0}})
